@@ -46,3 +46,15 @@ def size_thresholds(modules, bound):
                     if _is_sizeish(x) and val is not None and val > bound:
                         out.append((modname, funcs.get(id(node), "<module>"), node.lineno, val))
     return out
+
+
+def report(run, modules, bound, what):
+    """obligation: no size threshold beyond the explored sizes in the given modules (inconclusive when one is found)"""
+    ths = size_thresholds(modules, bound)
+    if not ths:
+        run.obligation("bounds.no_size_threshold_beyond_the_bound", "discharged",
+                       f"no comparison of a container size with an integer constant > {bound} in {', '.join(modules)} ({what})", paths=1)
+    for (mod, fn, line, lit) in ths:
+        run.obligation(f"bounds.threshold.{mod.split('.')[-1]}.{fn}.{lit}", "inconclusive",
+                       f"size threshold {lit} at {mod}:{line} ({fn}) lies beyond the explored sizes ({what})", paths=1)
+    return ths
